@@ -103,7 +103,7 @@ def run(chk, replay, exe):
             dc.append((c, "args"))
         else:
             dc.append((c, "mod"))
-    obs = vc.run_cases(exe, [to_driver(c, via) for c, via in dc], chk.out, "replay", per_case_timeout=2)
+    obs = vc.run_cases(exe, [to_driver(c, via) for c, via in dc], chk.out, "replay", per_case_timeout=5)
     for (c, via), o in zip(dc, obs):
         compare(chk, c, o, via)
     chk.replayed += len(dc)
@@ -114,7 +114,7 @@ def run(chk, replay, exe):
     rng = random.Random(chk.seed)
     n = 4000 if tier == "quick" else 60000
     rc = rand_cases(rng, n)
-    robs = vc.run_cases(exe, [to_driver(c, via) for c, via in rc], chk.out, "record", per_case_timeout=2)
+    robs = vc.run_cases(exe, [to_driver(c, via) for c, via in rc], chk.out, "record", per_case_timeout=5)
     execs, cur = [], []
     for (c, via), o in zip(rc, robs):
         ev = dict(e=c["op"], fmt=c.get("fmt", []), args=c["args"], via=via, outcome=o.get("outcome"), cls=o.get("cls", ""),
